@@ -156,9 +156,39 @@ func c12r1(c *RC) {
 				task := expr(sel.X)
 				fq := fn.QName()
 				nf := 0
+				// exits taken because the executor knows no location for the task:
+				// returns inside `if X == nil` where X := <executor>.location(task)
+				nilLocExits := map[string]bool{}
+				ast.Inspect(fn.Body, func(m ast.Node) bool {
+					ifs, ok := m.(*ast.IfStmt)
+					if !ok {
+						return true
+					}
+					be, ok := ast.Unparen(ifs.Cond).(*ast.BinaryExpr)
+					if !ok || be.Op != token.EQL || expr(be.Y) != "nil" {
+						return true
+					}
+					isLoc := false
+					ast.Inspect(fn.Body, func(q ast.Node) bool {
+						if as, ok := q.(*ast.AssignStmt); ok && len(as.Lhs) == 1 && len(as.Rhs) == 1 && expr(as.Lhs[0]) == expr(be.X) {
+							if k, ok := as.Rhs[0].(*ast.CallExpr); ok && fn.Pkg.CalleeName(k) == "exec.(*bigmachineExecutor).location" {
+								isLoc = true
+							}
+						}
+						return true
+					})
+					if isLoc {
+						for _, st := range ifs.Body.List {
+							if r, ok := st.(*ast.ReturnStmt); ok {
+								nilLocExits[pr.Pos(r.Pos())] = true
+							}
+						}
+					}
+					return true
+				})
 				c12restores(c, fn, Loc{b, i + 1}, task, 0, func(pos, why string, trail []string) {
 					// exception: bigmachineExecutor.Discard's nil-location exit
-					if fq == "exec.(*bigmachineExecutor).Discard" && strings.Contains(strings.Join(trail, " "), "[m == nil]=true") {
+					if fq == "exec.(*bigmachineExecutor).Discard" && nilLocExits[pos] {
 						if c12locationPrecedesOk(c) {
 							c.Except(fq+"|exit on location(task) == nil", "infeasible once the state was TaskOk: setLocation precedes Set(TaskOk) in Run (checked as a side obligation)")
 							return
@@ -308,6 +338,14 @@ func c12r3(c *RC) {
 		return
 	}
 	resVar := expr(br.Init.(*ast.AssignStmt).Lhs[0])
+	partP := "part"
+	if fn.Type.Params != nil && len(fn.Type.Params.List) >= 2 && len(fn.Type.Params.List[len(fn.Type.Params.List)-1].Names) > 0 {
+		partP = fn.Type.Params.List[len(fn.Type.Params.List)-1].Names[0].Name
+	}
+	tasksR := "tasks"
+	if fn.Type.Results != nil && len(fn.Type.Results.List) > 0 && len(fn.Type.Results.List[0].Names) > 0 {
+		tasksR = fn.Type.Results.List[0].Names[0].Name
+	}
 	// (a) combiner tasks rejected with an error
 	rej := false
 	ast.Inspect(br.Body, func(n ast.Node) bool {
@@ -324,10 +362,10 @@ func c12r3(c *RC) {
 	// (b) !part.IsShuffle() => tasks = result.tasks; return
 	direct := false
 	ast.Inspect(br.Body, func(n ast.Node) bool {
-		if ifs, ok := n.(*ast.IfStmt); ok && strings.ReplaceAll(expr(ifs.Cond), " ", "") == "!part.IsShuffle()" {
+		if ifs, ok := n.(*ast.IfStmt); ok && strings.ReplaceAll(expr(ifs.Cond), " ", "") == "!"+partP+".IsShuffle()" {
 			as, ret := false, false
 			for _, st := range ifs.Body.List {
-				if a, ok := st.(*ast.AssignStmt); ok && expr(a.Lhs[0]) == "tasks" && expr(a.Rhs[0]) == resVar+".tasks" {
+				if a, ok := st.(*ast.AssignStmt); ok && expr(a.Lhs[0]) == tasksR && expr(a.Rhs[0]) == resVar+".tasks" {
 					as = true
 				}
 				if _, ok := st.(*ast.ReturnStmt); ok {
@@ -401,7 +439,21 @@ func c12r4(c *RC) {
 				continue
 			}
 			t := strings.ReplaceAll(expr(ifs.Cond), " ", "")
-			if t == "!ok" || strings.HasSuffix(t, "==nil") {
+			isNotOK := false
+			if u, isU := ast.Unparen(ifs.Cond).(*ast.UnaryExpr); isU && u.Op == token.NOT {
+				if id, isId := u.X.(*ast.Ident); isId {
+					// the comma-ok result of a map lookup
+					ast.Inspect(fn.Body, func(m ast.Node) bool {
+						if as, isA := m.(*ast.AssignStmt); isA && len(as.Lhs) == 2 && len(as.Rhs) == 1 && expr(as.Lhs[1]) == id.Name {
+							if _, isIx := as.Rhs[0].(*ast.IndexExpr); isIx {
+								isNotOK = true
+							}
+						}
+						return true
+					})
+				}
+			}
+			if isNotOK || strings.HasSuffix(t, "==nil") {
 				found = true
 				for _, k := range callsIn(ifs.Body) {
 					if fn.Pkg.CalleeName(k) == "sliceio.ErrReader" {
@@ -441,7 +493,7 @@ func c12r5(c *RC) {
 				if a, ok := st.(*ast.AssignStmt); ok && len(a.Lhs) == 1 {
 					if ix, ok := a.Lhs[0].(*ast.IndexExpr); ok && expr(ix.Index) == i {
 						if call, ok := a.Rhs[0].(*ast.CallExpr); ok && strings.HasSuffix(fn.Pkg.CalleeName(call), "Executor.Reader") && len(call.Args) == 2 {
-							if expr(call.Args[0]) == "r.tasks["+i+"]" {
+							if expr(call.Args[0]) == recvOf(fn)+".tasks["+i+"]" {
 								if v, isC := constInt(fn.Pkg, call.Args[1]); isC && v == 0 {
 									okIdx = true
 									rv = expr(ix.X)
@@ -464,7 +516,7 @@ func c12r5(c *RC) {
 	// readers slice sized by the tasks
 	sized := false
 	ast.Inspect(fn.Body, func(n ast.Node) bool {
-		if call, ok := n.(*ast.CallExpr); ok && expr(call.Fun) == "make" && len(call.Args) == 2 && expr(call.Args[1]) == "len(r.tasks)" {
+		if call, ok := n.(*ast.CallExpr); ok && expr(call.Fun) == "make" && len(call.Args) == 2 && expr(call.Args[1]) == "len("+recvOf(fn)+".tasks)" {
 			sized = true
 		}
 		return true
